@@ -65,6 +65,18 @@ def printable(b):
     return all(32 <= x < 127 and x != 34 for x in b)
 
 
+def tight_slack(rng, f, ls, lt, garb):
+    """free bytes before the statement, chosen so that it can succeed: with reclaimable garbage anything above the
+    temporary; without, MID$= keeps the temporary alive while the literal is copied (sum needed), LSET/RSET have read
+    the source by then (maximum needed).  The exact boundary depends on allocator details and is avoided (+3)."""
+    if garb:
+        return lt + rng.choice([0, 1, 2, 7, max(0, ls - 1), ls, ls + 1, 60])
+    if f == 'MIDSET':
+        return lt + ls + rng.choice([3, 4, 60])
+    lo = max(lt, ls) + 3
+    return rng.choice([lo, lo, lo + 1, max(lo, lt + ls - 1), lt + ls + 3])
+
+
 class Refused(Exception):
     pass
 
@@ -278,6 +290,17 @@ class C09(core.Check):
         names = [w[0] for w in weights]
         ws = [w[1] for w in weights]
         while len(out) < n:
+            if rng.random() < 0.04:
+                # in-place statements under memory pressure: literal target, temporary source, string space nearly full
+                pr = [x for x in range(32, 127) if x != 34]
+                s_ = [rng.choice(pr) for _ in range(rng.randrange(1, 40))]
+                t_ = [rng.choice(pr) for _ in range(rng.choice([len(s_), len(s_), rng.randrange(0, 40)]))]
+                g_, f_ = rng.randrange(2), rng.choice(['LSET', 'RSET', 'MIDSET'])
+                c = {'f': f_, 's': s_, 't': t_, 'tm': 'tight', 'slack': tight_slack(rng, f_, len(s_), len(t_), g_), 'garb': g_}
+                if f_ == 'MIDSET':
+                    c.update({'a': [rng.randrange(1, len(s_) + 1), 0, ''], 'b': None, 'same': 0})
+                add(c)
+                continue
             f = rng.choices(names, ws)[0]
             if f in ('LEFT', 'RIGHT'):
                 s = self._bytes()
@@ -348,7 +371,7 @@ class C09(core.Check):
                 r = rng.random()
                 tm = 'var'
                 if r < 0.12 and printable(s + t) and len(s) + len(t) < 100:
-                    tm = 'prog'
+                    tm = 'prog' if r < 0.07 or same else 'tight'
                 elif r < 0.2 and not same:
                     tm = 'alias'
                     t = list(s)
@@ -365,7 +388,11 @@ class C09(core.Check):
                     a = [rng.randrange(1, len(s) + 1), 0, rng.choice(['', '', '', '#', '!'])]
                 else:
                     a = self._num(len(s))
-                add({'f': f, 's': s, 't': t, 'tm': tm, 'a': a, 'b': b, 'same': same})
+                c = {'f': f, 's': s, 't': t, 'tm': tm, 'a': a, 'b': b, 'same': same}
+                if tm == 'tight':
+                    c['garb'] = rng.randrange(2)
+                    c['slack'] = tight_slack(rng, f, len(s), len(t), c['garb'])
+                add(c)
             elif f == 'COMP':
                 s = self._bytes()
                 if not s and rng.random() < 0.8:
@@ -409,12 +436,16 @@ class C09(core.Check):
                 r = rng.random()
                 tm = 'var'
                 if r < 0.12 and printable(s + t) and len(s) + len(t) < 100:
-                    tm = 'prog'
+                    tm = 'prog' if r < 0.06 else 'tight'
                 elif r < 0.25 and 0 < len(s) <= 128:
                     tm = 'field'
                 elif r < 0.3:
                     tm, t = 'self', list(s)
-                add({'f': f, 's': s, 't': t, 'tm': tm})
+                c = {'f': f, 's': s, 't': t, 'tm': tm}
+                if tm == 'tight':
+                    c['garb'] = rng.randrange(2)
+                    c['slack'] = tight_slack(rng, f, len(s), len(t), c['garb'])
+                add(c)
         self.histogram = hist
         return out
 
@@ -619,6 +650,24 @@ class C09(core.Check):
                         raise Refused('line too long')
                     s.execute(line)
                     err = self._run(s, 'RUN')
+                elif tm == 'tight':
+                    # the target is a literal in program code, the source a temporary expression, and string space holds
+                    # just `slack` free bytes (and maybe garbage): copying the literal out has to collect garbage while
+                    # the temporary is alive (seeded change C09c)
+                    src = str_expr(val, 'lit') + '+""'
+                    prog = ['10 CLEAR ,9000:DIM F$(90):G$="":A$="":I=0:K=0',
+                            '30 G$=STRING$(200,"g"):G$=STRING$(200,"h")' if case.get('garb') else '30 K=FRE("")',
+                            '40 WHILE FRE(0)>250:F$(I)=STRING$(100,"x"):I=I+1:WEND',
+                            '50 K=FRE(0)-%d:F$(I)=STRING$(K,"y")' % case['slack'],
+                            '60 A$=%s' % str_expr(tgt, 'lit')]
+                    if max(len(l) for l in prog) > 250:
+                        raise Refused('line too long')
+                    for l in prog:
+                        s.execute(l)
+                    err = self._run(s, 'RUN')
+                    if err is not None:
+                        raise Refused('tight setup failed with %s' % err)
+                    err = self._run(s, '%s=%s' % (head, src))
                 elif tm == 'alias':
                     # B$ is a copy of A$ (equal contents, different pointer)
                     s.set_variable('A$', bytes(tgt))
@@ -640,7 +689,7 @@ class C09(core.Check):
                 if err is not None:
                     return [1, err]
                 res = list(s.get_variable('A$'))
-                if src == 'B$' and tm != 'alias' and list(s.get_variable('B$')) != val:
+                if src == 'B$' and tm not in ('alias', 'tight') and list(s.get_variable('B$')) != val:
                     raise Refused('source changed')
                 return [0] + res
         finally:
